@@ -8,7 +8,7 @@ FAIL_VALUES = (2, 3, 4, 5, 6)       # mutex / variable callbacks failing with -1
 DEV = r"\r\n\0?=\s\x80a,"       # deviation alphabet: CR LF NUL ? = space 0x80 lower-case-letter comma
 
 
-PROBE_PROPS = ("C11", "C14", "C15", "C18")     # plans whose statements quantify over refusal runs of any length and do not carry the C12 stutter monitor
+PROBE_PROPS = ("C11", "C12", "C14", "C15", "C18")     # plans whose statements quantify over refusal runs of any length and do not carry the C12 stutter monitor
 
 
 def mcx(tag, ring=1, asan=False, **kw):
@@ -114,6 +114,8 @@ def c10_shards(tier, mon="C10", prop="C10"):
                 sh.append(mcx("codes-evt-tok%d-sh%d-ub%d" % (tok, shared, ub), prop=prop, table=T_CODES, cap=40, shared=shared, ubuf=ub, name_alpha="+U", max_name=2, suffix_mask=1,
                               lines=1, refuse_read=1, refuse_write=1, codes_U="OK,HOLD", ecodes_R=ALLE, ecodes_T=ALLE, max_inv=inv, tok=tok, varcb_fail=1,
                               ev="+e:R,+f:T,+g:R,+o:R", act="trigger,hold", trig_budget=2, mon=mon))
+    # runs of 254..70000 NEXT / DATA_NEXT from one handler of each kind, ended by OK or ERROR (eager environment)
+    sh += sw_shards("args", prop, tier, 8, "--family", "nextrun", tagp="nextrun")
     # token mode 2: every other invocation hands back an empty response (DATA_NEXT / DATA_OK must still emit the empty line)
     for nm, alpha, sm in (("R", "+RN", 2), ("T", "+TM", 8)):
         sh.append(mcx("codes-cmd-%s-emptytok" % nm, prop=prop, table=T_CODES, cap=40, shared=0, name_alpha=alpha, max_name=2, args_alpha="1,", max_args=3, suffix_mask=sm, lines=1,
@@ -322,6 +324,10 @@ def c13_shards(tier, prop="C13", mon="C13"):
     sh.append(mcx("queue-bounded-r2-mutex", ring=2, prop=prop, table=T_Q, cap=12, shared=0, name_alpha="HK", max_name=1, args_alpha="1", max_args=0, suffix_mask=5, lines=1,
                   refuse_read=1, refuse_write=1, codes_W="HOLD,OK", codes_U="OK", ecodes_R="OK,DATA_OK", ecodes_T="OK", max_inv=1, tok=1,
                   ev="+a:R,+b:R,+d:R", act="trigger,hold,queries", trig_budget=2, mutex=1, mon=mon))
+    # long histories: 100000 trigger attempts per run at capacities 1, 2, 3, 5, 8 (counter wrap-arounds; capacities that do not divide 2^16)
+    for ring in (1, 2, 3, 5, 8):
+        for i in range(6 if not quick else 3):
+            sh.append({"tag": "longrun-r%d-%d" % (ring, i), "bin": "sw_longrun_r%d" % ring, "args": ["--prop", prop, "--tier", tier, "--shard", i * (1 if not quick else 2), "--nshards", 6]})
     # (ii) with command traffic (a held command and an answering one)
     for ring in (1, 2, 3):
         for shared in (0, 1):
@@ -413,6 +419,7 @@ def p_c15(tier):
     sh += sw_shards("describe", "C15", tier, 8, "--family", "shapes", "--pairs", 1, tagp="shapes")
     sh += sw_shards("bounds", "C15", tier, 4, "--family", "names", tagp="names")
     sh += sw_shards("bounds", "C15", tier, 4, "--family", "format", tagp="format")
+    sh += sw_shards("tables", "C15", tier, 26, "--family", "crowd", tagp="crowd")
     return {"shards": sh, "require": ["ok_repeat_checked", "ev_silent", "ev_done", "lines_done"],
             "technique": "explicit-state model checking: OK-is-stable checked on every OK state; liveness by following the quiet eager continuation from every reachable state (cycle detection + distance bound)",
             "bounds": "state spaces of the duplex, queue (fixpoint), hold and lines scenarios",
@@ -497,6 +504,9 @@ def c20_shards(tier):
         sh.append(mcx("history-events-r%d" % ring, ring=ring, prop="C20", table=T_HIST + "||+e:vu1ro;+f:R", cap=8, shared=shared, name_alpha="+SRUA", max_name=3, args_alpha="1", max_args=1,
                       D=0, lines=0, crlf=1, blank=1, refuse_read=1, refuse_write=1, codes_W="OK", codes_R="DATA_OK", codes_U="OK", codes_T="DATA_OK", ecodes_R="DATA_OK,OK",
                       max_inv=1, ev="+e:R,+f:R", h_trigger=1, mon="C20"))
+    # multi-unit responses (command list, READ with DATA_NEXT) to CRLF requests in a buffer large enough for CRLF-framed entries
+    sh.append(mcx("history-list-crlf", prop="C20", table=T_HIST, cap=16, shared=0, name_alpha="+SRUA", max_name=3, args_alpha="1", max_args=1, D=1, dev=r"\r", lines=2, crlf=1, blank=0, lower=0,
+                  refuse_read=0, refuse_write=1, codes_W="OK", codes_R="DATA_NEXT,DATA_OK", codes_U="LIST,OK", codes_T="LIST,DATA_OK", max_inv=1, mon="C20"))
     # cat_init called again between and inside lines: what follows is answered as on a fresh object
     sh.append(mcx("history-reinit", prop="C20", table=T_HIST, cap=8, shared=1, name_alpha="+SRUDA", max_name=3, args_alpha="1", max_args=2, D=0, lines=3, crlf=1, blank=1, lower=0,
                   refuse_read=0, refuse_write=0, codes_W="OK,ERROR", codes_R="DATA_OK", codes_U="OK,LIST", codes_T="DATA_OK", max_inv=1, act="reinit", mon="C20"))
@@ -529,6 +539,10 @@ def c09_shards(tier):
         sh.append(mcx("gating-%s" % nm, prop="C09", table=T_GATE, cap=8, name_alpha="+ABCDOL", max_name=4, args_alpha="1", max_args=1, suffix_mask=sm,
                       D=0, lines=0, lower=0, refuse_read=0, refuse_write=0, codes_W="OK", codes_R="OK,DATA_OK", codes_U="OK,LIST", codes_T="OK", max_inv=1,
                       act="flags", flag_budget=3 if quick else 0, mon="C09"))
+    for sm, nm in ((1, "run"), (4, "write")):
+        sh.append(mcx("gating-alias-%s" % nm, prop="C09", table=T_GATE, cap=8, name_alpha="+ABCDOL", max_name=4, args_alpha="1", max_args=1, suffix_mask=sm,
+                      D=0, lines=0, lower=0, refuse_read=0, refuse_write=0, codes_W="OK", codes_R="OK,DATA_OK", codes_U="OK,LIST", codes_T="OK", max_inv=1,
+                      act="flags", flag_budget=2, alias_group=1, mon="C09"))
     for ring in (1, 2):
         sh.append(duplex_overlong("write-with-events-on-disabled-r%d" % ring, ring, ring - 1, "C09", "C09",
                                   extra=dict(table="+W:W;+V:W,vu1rw/w,vi1rw/w,vu1rw/w||+u:d,vu1rw/w,vu1rw/w", cap=12, max_args=6, lines=1, act="trigger", trig_budget=2, ev="+u:R,+u:T")))
@@ -573,6 +587,8 @@ def p_c02(tier):
     sh += sw_shards("tables", "C02", tier, 8, "--family", "small", "--maxk", 2 if quick else 3, "--interfere", 2, tagp="tables-2objline")
     sh += sw_shards("tables", "C02", tier, 8, "--family", "lanes", "--interfere", 1, tagp="lanes-2obj")
     sh += sw_shards("tables", "C02", tier, 8, "--family", "lanes", "--interfere", 2, tagp="lanes-2objline")
+    # K commands sharing one prefix plus an outsider, K around 2^8, 2^9, 2^10 and 2^16, one and two groups
+    sh += sw_shards("tables", "C02", tier, 26, "--family", "crowd", tagp="crowd")
     # unsolicited events (READ and TEST, with and without variables) popped at every point of the name search of exact and abbreviated names
     for ring in (1, 2):
         sh.append(mcx("search-with-events-r%d" % ring, ring=ring, prop="C02", table="+AB:U;+CD:UR,vu1rw;+EF:UW;+EG:U;Z:U||+t:T,vu1ro,D=d;+n:T,D=n", cap=12, shared=ring - 1, name_alpha="+ACEBFZ", max_name=3,
@@ -604,6 +620,7 @@ def p_c04(tier):
     # multi-variable WRITE parsed over several cat_service calls while unsolicited events start, flush and finish in between
     for ring in (1, 2):
         sh.append(duplex_overlong("write-with-events-r%d" % ring, ring, ring % 2 + 1, "C04", "C04", extra=dict(cap=12, max_args=6, lines=1, act="trigger", trig_budget=3)))
+        sh.append(duplex_overlong("write-with-events-stale-usize-r%d" % ring, ring, 1, "C04", "C04", extra=dict(cap=12, max_args=13, args_alpha="1", lines=1, act="trigger", trig_budget=1, stale_usize=24)))
         sh.append(duplex_overlong("write-with-failing-events-r%d" % ring, ring, ring % 2 + 1, "C04", "C04", extra=dict(cap=12, max_args=6, lines=1, act="trigger", trig_budget=2, ev="+d:R,+f:R,+s:R", varcb_fail=1, h_trigger=0)))
     # digit counts at and around 2^8, 2^9, 2^16 and 2^17 (counters narrower than the buffer capacity)
     sh += sw_shards("numeric", "C04", tier, 12, "--family", "huge", tagp="huge")
@@ -625,6 +642,7 @@ def p_c05(tier):
     sh += sw_shards("buffers", "C05", tier, 8, "--family", "residue", tagp="residue")
     # valid texts of exactly capacity-3 .. capacity+2 bytes x every line ending and CR position x every layout
     sh += sw_shards("buffers", "C05", tier, 4, "--family", "capfit", tagp="capfit")
+    sh += sw_shards("args", "C05", tier, 6, "--family", "huge", tagp="huge")
     for ring in (1, 2):
         sh.append(mcx("bufwrite-with-events-r%d" % ring, ring=ring, prop="C05", table="+V:W,vb2rw,vs3rw,vb1rw||+u:vu1ro,vu1ro", cap=16, shared=ring % 2 + 1, name_alpha="+V", max_name=2,
                       args_alpha="A1,\"", max_args=6, suffix_mask=4, lines=1, refuse_read=1, refuse_write=1, codes_W="OK", max_inv=1, ev="+u:R", act="trigger", trig_budget=2, mon="C05"))
@@ -649,6 +667,7 @@ def p_c06(tier):
     # every command shape (handler subsets x flags x variable profiles, also '.var set, var_num 0') with every request form: '?' after '=' reaches the write handler verbatim unless a TEST form exists
     sh += sw_shards("describe", "C06", tier, 4, "--family", "shapes", "--pairs", 0, tagp="shapes")
     sh += sw_shards("tables", "C06", tier, 8, "--family", "small", "--maxk", 2 if tier == "quick" else 3, tagp="tables")
+    sh += sw_shards("args", "C06", tier, 6, "--family", "huge", tagp="huge")
     for ring in (1, 2):
         sh.append(duplex_overlong("args-with-string-event-r%d" % ring, ring, ring - 1, "C06", "C06", extra=dict(cap=10, max_args=6, lines=2, ev="+s:R,+u:R", codes_W="OK,NEXT", h_trigger=1)))
     return {"shards": sh, "require": ["runs", "overlong", "lines_ok"],
